@@ -57,6 +57,12 @@ static void set_kind(int fd, int k)
 	}
 }
 
+void env_forget_fd(int fd)
+{
+	if (fd >= 0 && fd < MAXFD)
+		fdk[fd] = 0;
+}
+
 int env_fd_owner(int fd)
 {
 	return (fd >= 0 && fd < MAXFD) ? fdowner[fd] : -1;
